@@ -99,7 +99,9 @@ def newIndex (config : IndexConfig) : Res Index :=
   match columns config.key with
   | .error e => .error e
   | .ok cols =>
-    if config.expiry > 0 && config.key.length > 1 then .error .err
+    -- a field name starting with `$` is rejected (for any index, as MongoDB does)
+    if cols.any (fun col => isOpKey col.path) then .error .err
+    else if config.expiry > 0 && config.key.length > 1 then .error .err
     else .ok { config := config, columns := cols, entries := [] }
 
 /-- mongokit.Index.Build -/
